@@ -330,6 +330,77 @@ def run_tree(rng, tier, rep):
     return viol
 
 
+def groupings(rep, rng, tier):
+    """however a tensor space is put together (all factors at once, left- or right-nested products, halves, with
+    one-dimensional factors), the labels are one and the same object for ==, != and hashing"""
+    import qutip
+    from qutip.core.dimensions import Space, Dimensions
+    viol = []
+    for _ in range(40 if tier == "quick" else 300):
+        k = int(rng.integers(3, 6))
+        ds = [int(x) for x in rng.choice([1, 2, 3, 4], size=k)]
+        # at most one one-dimensional factor: a product of several of them collapses to the scalar field (documented), and
+        # nested groupings would then drop factors
+        seen1 = False
+        for i_, d in enumerate(ds):
+            if d == 1:
+                if seen1:
+                    ds[i_] = 2
+                seen1 = True
+        kind = str(rng.choice(["ket", "oper", "dm-super"]))
+        if kind == "dm-super":
+            ds = [max(d, 2) for d in ds[:3]]        # no superoperators over a one-dimensional space (they collapse to scalars)
+            k = len(ds)
+        facs = []
+        for d in ds:
+            if kind == "ket":
+                facs.append(qutip.basis(d, 0))
+            elif kind == "oper":
+                facs.append(qutip.qeye(d) if d > 1 else qutip.Qobj([[1.0]]))
+            else:
+                facs.append(qutip.to_super(qutip.qeye(d)) if d > 1 else qutip.to_super(qutip.Qobj([[1.0]])))
+        cut = int(rng.integers(1, k))
+        try:
+            builds = {"all at once": qutip.tensor(*facs), "left-nested": None, "right-nested": None,
+                      "two halves": qutip.tensor(qutip.tensor(*facs[:cut]), qutip.tensor(*facs[cut:])) if 0 < cut < k else None,
+                      "as a list": qutip.tensor(list(facs))}
+            acc = facs[0]
+            for f_ in facs[1:]:
+                acc = qutip.tensor(acc, f_)
+            builds["left-nested"] = acc
+            acc = facs[-1]
+            for f_ in reversed(facs[:-1]):
+                acc = qutip.tensor(f_, acc)
+            builds["right-nested"] = acc
+            if kind != "dm-super":
+                sp = [Space([d]) for d in ds]
+                builds_sp = {"Space(list)": Space(ds), "Space(Space(..), Space(..))": Space(Space(ds[:cut]), Space(ds[cut:])), "Space of spaces": Space(*sp)}
+            else:
+                builds_sp = {}
+        except Exception as e:      # noqa
+            viol.append(("grouping-raises", f"building a tensor space on {ds} ({kind}) raises {type(e).__name__}: {e}"[:200], {"dims": ds, "kind": kind}))
+            continue
+        rep.evaluations += 1
+        rep.count("grouping=" + kind)
+        for family, items in (("objects", {n: q._dims for n, q in builds.items() if q is not None}), ("spaces", builds_sp)):
+            names = list(items)
+            if not names:
+                continue
+            ref = items[names[0]]
+            for n in names[1:]:
+                x = items[n]
+                if not (ref == x) or (ref != x):
+                    viol.append(("grouping-eq", f"labels of a tensor space on {ds} ({kind}) built {names[0]} and {n} do not compare equal", {"dims": ds, "kind": kind, "build": n}))
+                elif hash(ref) != hash(x):
+                    viol.append(("grouping-hash", f"labels of a tensor space on {ds} ({kind}) built {names[0]} and {n} are equal but hash differently", {"dims": ds, "kind": kind, "build": n}))
+                elif len({ref, x}) != 1 or {ref: 1}.get(x) != 1:
+                    viol.append(("grouping-set", f"labels of a tensor space on {ds} ({kind}) built {names[0]} and {n} are distinct set members / dictionary keys", {"dims": ds, "kind": kind, "build": n}))
+        dl = {n: q.dims for n, q in builds.items() if q is not None}
+        if len({json.dumps(d) for d in dl.values()}) != 1:
+            viol.append(("grouping-dims", f"tensor products of the same factors in different groupings are labelled differently: {dl}", {"dims": ds, "kind": kind}))
+    return viol
+
+
 def run(tier, seed, replay):
     rep = core.Report(PID, tier, seed)
     rep.rule = ("dimension specs: random nested lists (flat, extra layer, superoperator pairs, 1-factors, malformed), pairs for "
@@ -367,6 +438,11 @@ def run(tier, seed, replay):
         extra += [([X, Y], [Y, Z]), ([X, Y], [Y2, Z]), ([X, Y], [Y, Z])]
     pairs += extra
     lines += ["C02.matmul " + json.dumps({"tidy": True, "a": a, "b": b}) for a, b in pairs]
+    seen_g = set()
+    for sig, what, data in groupings(rep, rng, tier):
+        if sig not in seen_g:
+            seen_g.add(sig)
+            rep.violation(core.Violation("C02:" + sig, what, data))
     model = core.run_driver(lines)
     ndis, first = 0, None
     for (s, r), m in zip(specs, model[:len(specs)]):
